@@ -219,7 +219,9 @@ func (m Matches) uniquify() Matches {
 OUTER:
 	for _, match := range m {
 		for _, mr := range matched {
-			if match.Offset >= mr.offset && match.Offset <= mr.offset+mr.extent {
+			// The extent is exclusive: a match that starts where mr ends is not
+			// contained in it.
+			if match.Offset >= mr.offset && match.Offset < mr.offset+mr.extent {
 				continue OUTER
 			}
 		}
